@@ -4,13 +4,16 @@
   Server: semantic theorems about the program extracted from frontend/server/** on this run.  A crash is
   a budget `k` of file-system mutations (mkdir, open of the temporary file, its write, the rename over
   the target) after which the process stops; *every* `k` is covered, in every consistent state.
-  Client: the extracted file-manager primitives are proved atomic and ordered "data before flag"; the
-  semantic consequence (the workflow completes after a restart) is decided for the client by exhaustive
-  enumeration of its crash points on the real code (harness/props/c13.py) — see `client_semantic_partial`.
+  Client: the extracted file-manager primitives are proved atomic and ordered "data before flag", and the
+  semantic consequence — after a crash at any mutation of any persisting step of the documented workflow the
+  re-created client redoes or finds completed the interrupted step and the workflow ends in a correct search —
+  is proved for the extracted program by kernel evaluation of the budgeted interpreter (`client_crash_recovers`);
+  other client histories are covered by the exhaustive crash lab on the real code (harness/props/c13.py).
 -/
 import SSEPyVerif.Proofs.Server
 import SSEPyVerif.Generated.ServerIR
 import SSEPyVerif.Generated.ClientIR
+import SSEPyVerif.Model.ClientCrash
 namespace SSEPy.C13
 open SSEPy.ServerIR
 
@@ -91,11 +94,55 @@ theorem client_data_before_flag :
     fsOps C C.uploadEdbEcho = [.openTmp "service_meta", .writeTmp "service_meta", .replace "service_meta", .unlink "edb"] ∧
     C.fmCheckValid = [.retAllExist ["config.json", "service_meta"]] := by decide
 
-/-- the client's semantic statement (a restart after any crash prefix of a persisting client handler
-    lets the workflow finish in correct searches) is NOT proved in Lean; it is decided by exhaustive
-    enumeration of the finitely many client crash points on the real code on every run.  What is proved
-    is the structural premise above. -/
-theorem client_semantic_partial : True := trivial
+/-! ### client: the semantic statement, for the program extracted on this run
+
+  `Model/ClientCrash.lean` runs the extracted client program against the three-state reference server (which the extracted
+  server program refines, C10) under a crash budget: the process dies when it is about to perform its (k+1)-th mutation of the
+  service folder — by `client_writes_are_atomic` each mutation is one atomic step, so these are all the observably different
+  crash points.  After the crash the user does what the property says: a service whose creation was interrupted is created
+  anew (fresh salt, fresh folder), otherwise every step of the workflow is issued again (completed ones are refused, the
+  interrupted one is redone or has visibly completed), then a search is made.  -/
+
+open SSEPy.ClientIR in
+/-- does the recovery after a crash in step `i` with budget `k` end in a search answered by the index built under the key
+    the token was made with? -/
+def recovers (i k : Nat) : Bool :=
+  match crashThenRecover C 7 i k with
+  | some (_, .result e t) => e == t
+  | _ => false
+
+open SSEPy.ClientIR in
+/-- did the process die in step `i` with budget `k`? -/
+def dies (i k : Nat) : Bool :=
+  match crashThenRecover C 7 i k with
+  | some (d, _) => d
+  | none => false
+
+/-- EVERY crash point of EVERY persisting client step — create-service, generate-key, encrypt-database, and the handling of
+    the two upload acknowledgements (incl. the flag write of `close_service`) — is recovered from: the re-created client
+    loads, the interrupted step is redone or has visibly completed, and the workflow ends in a search whose answering index
+    and token come from the same key.  Budgets 0, 1, 2 are the crash points (no step performs more than three mutations:
+    with budget 3 nothing dies — `crash_points_are_covered`), budgets 3..5 are the crash-free runs. -/
+theorem client_crash_recovers : ∀ i, i < 5 → ∀ k, k < 6 → recovers i k = true := by
+  have h : ((List.range 5).all fun i => (List.range 6).all fun k => recovers i k) = true := by decide +kernel
+  intro i hi k hk
+  have h1 := List.all_eq_true.mp h i (List.mem_range.mpr hi)
+  exact List.all_eq_true.mp h1 k (List.mem_range.mpr hk)
+
+/-- the budgets below 3 really are crashes (the process dies in every step with budget 0) and 3 is enough for every step -/
+theorem crash_points_are_covered :
+    (∀ i, i < 5 → dies i 0 = true) ∧ (∀ i, i < 5 → dies i 3 = false) := by
+  have h0 : ((List.range 5).all fun i => dies i 0) = true := by decide +kernel
+  have h3 : ((List.range 5).all fun i => !dies i 3) = true := by decide +kernel
+  refine ⟨fun i hi => List.all_eq_true.mp h0 i (List.mem_range.mpr hi), fun i hi => ?_⟩
+  have := List.all_eq_true.mp h3 i (List.mem_range.mpr hi)
+  simpa using this
+
+/-- what is NOT covered by the client theorem: it is about ONE run of the documented workflow with an opaque configuration
+    token (the model never inspects the configuration), not about every reachable client history; histories other than the
+    documented one are covered for the SERVER half by `restart_then_reference` and for the client by the crash lab on the real
+    code (every crash point of every handler, harness/props/c13.py). -/
+theorem client_semantic_partial : (∀ i, i < 5 → ∀ k, k < 6 → recovers i k = true) := client_crash_recovers
 
 /-! ### non-vacuity -/
 example : (handleMsg G {} {} (.config (some 5)) (some 4)).1
